@@ -102,6 +102,82 @@ def gen_tree(rng, chk=None, special=True):
     return ents
 
 
+TWIN_RELATIONS = ['sibling', 'cousin', 'parent-child']
+TWIN_DIRS = ['a', 'b', 'c', 'd', 'p', 'q', 'r']       # disjoint from the entry names the twin lines are about
+TWIN_CLASSES = ['name', 'star-ext', 'dir-slash', 'negation', 'inner-slash', 'anchored']
+
+
+def twin_line(rng, cls):
+    """(line, entries below a directory that the line is about, extra root line)"""
+    if cls == 'name':
+        n = rng.choice(['tmp', 'x.bak', 'g', 'out'])
+        return n, [('F', n), ('F', 'kept')], None
+    if cls == 'star-ext':
+        e = rng.choice(EXTS)
+        return '*.' + e, [('F', 's.' + e), ('F', 'kept')], None
+    if cls == 'dir-slash':
+        d = rng.choice(['build', 'tmp', 'data'])
+        return d + '/', [('D', d), ('F', d + '/o'), ('F', 'kept')], None
+    if cls == 'negation':
+        return '!keep.txt', [('F', 'keep.txt'), ('F', 'a.txt')], '*.txt'
+    if cls == 'inner-slash':
+        return 'sub/x.bak', [('D', 'sub'), ('F', 'sub/x.bak'), ('F', 'sub/y'), ('F', 'x.bak')], None
+    return '/f', [('F', 'f'), ('D', 'sub'), ('F', 'sub/f')], None
+
+
+def gen_twin_tree(rng, rel, cls, chk=None):
+    """the SAME line in the ignore files of two related directories (siblings, cousins, parent and child), each
+    directory holding entries the line is about; a third directory with another rule; the same entries once more at
+    the root, where no rule applies (except the optional root line the negation class needs)"""
+    a, b, c, d = rng.sample(TWIN_DIRS, 4)
+    if rel == 'sibling': d1, d2, parents = a, b, []
+    elif rel == 'cousin': d1, d2, parents = a + '/' + c, b + '/' + d, [a, b]
+    else: d1, d2, parents = a, a + '/' + c, []
+    line, below, root_line = twin_line(rng, cls)
+    ents = [('D', x) for x in parents] + [('D', d1), ('D', d2)]
+    for dd in (d1, d2):
+        ents += [(k, dd + '/' + q) for k, q in below]
+        other = gen_line(rng, [], []) if rng.random() < 0.4 else None
+        lines = [line] + ([other] if other and not other.startswith('!') else [])
+        if rng.random() < 0.3: lines.reverse()
+        ents += [('F', dd + '/' + IGN), ('I', dd, '\n'.join(lines) + '\n')]
+    ents += [(k, q) for k, q in below]                          # the same entries at the root
+    third = next(x for x in TWIN_DIRS if x not in (a, b, c, d))
+    ents += [('D', third), ('F', third + '/data.csv'), ('F', third + '/data.bak'), ('F', third + '/' + IGN), ('I', third, '*.bak\n')]
+    if root_line:
+        ents += [('F', IGN), ('I', '', root_line + '\n')]
+    seen, out = set(), []
+    for e in ents:                                              # parent-child shares entries: keep the first of each path
+        key = (e[0] == 'I', e[1])
+        if key in seen: continue
+        seen.add(key); out.append(e)
+    if chk: chk.count(f'twin:{rel}:{cls}')
+    return out
+
+
+def gen_merged_checks(rng, n, chk=None):
+    """(path, [(source, line)…]) for `checkm`: identical lines coming from the ignore files of different directories"""
+    out = []
+    dirs = ['a', 'b', 'a/c', 'b/d', 'sub', 'data/x']
+    for i in range(n):
+        cls = TWIN_CLASSES[(i - i // 4 - 1) % len(TWIN_CLASSES)] if i % 4 else None
+        if cls:
+            line, below, root_line = twin_line(rng, cls)
+            rel = next(q for k, q in below if k == 'F')
+        else:
+            line, root_line = gen_line(rng, [], []), None
+            rel = rng.choice(FILE_NAMES)
+        d1, d2 = rng.sample(dirs, 2)
+        if rng.random() < 0.25: d2 = d1 + '/c'
+        rules = [('F' + hx(d1), line), ('F' + hx(d2), line)]
+        if rng.random() < 0.4: rules.insert(rng.randrange(3), ('F' + hx(rng.choice(dirs)), gen_line(rng, [], [])))
+        if root_line: rules.insert(0, ('F', root_line))
+        for base in (d1, d2, ''):
+            out.append((('/' + base if base else '') + '/' + rel, rules))
+        if chk: chk.count('checkm:' + (cls or 'random'))
+    return out
+
+
 def enc_tree(ents):
     out = []
     for e in ents:
@@ -486,6 +562,22 @@ def binary_case(chk, pr, xvc, ents, idx, reps, hooked):
                 msgs.append('`xvc file list` shows paths inside .xvc/.git')
             if expect is not None and outs[0] != expect:
                 tie.append(('file-list', outs[0], expect))
+        # glob targets select among the considered paths only: nothing the whole listing hides may come back through a glob
+        if outs:
+            whole = set(outs[0])
+            globs = sorted({os.path.dirname(f).split('/')[0][:-1] + '?/*' for f in files if '/' in f and len(f.split('/')[0]) > 1} |
+                           {'*/' + os.path.basename(f) for f in files if f.count('/') == 1} | {'*/*/*'})[:5]
+            for g in globs:
+                rc, out, err = sb.x('file', 'list', '--show-dot-files', '--format', '{{name}}', g)
+                if rc != 0: continue
+                sel = sorted(l for l in out.split('\n') if l and not l.startswith('Total #'))
+                chk.count('binary:glob-target')
+                extra = [f for f in sel if f in files and f not in whole and f not in git_tracked]
+                if extra:
+                    msgs.append(f"`xvc file list '{g}'` selects {extra}, which `xvc file list` (no target) does not consider")
+                if expect is not None:
+                    back = [f for f in sel if f in files and f not in expect and f not in git_tracked]
+                    if back and not extra: tie.append((f"file-list '{g}'", sel, expect))
         # check-ignore
         cand = sorted(e[1] for e in ents if e[0] in 'FD')[:10]
         if cand:
@@ -578,15 +670,34 @@ def run(chk: Check):
         checks.append(('/' + '/'.join(segs), rules))
     stream_simple(chk, pr, 'check', checks, lambda c: 'check\t' + hx(c[0]) + ''.join(f'\t{s}\t{hx(l)}' for s, l in c[1]),
                   lambda c, x: x != 'nomatch')
-    for k in ('ignore', 'whitelist', 'nomatch'):
-        pass
+    # rule sets built as the walkers build them (one add_patterns/merge_with per ignore file), the same line in several files;
+    # independent oracle: the verdict does not depend on the order in which the files were loaded
+    merged = gen_merged_checks(rng, 150 if quick else 3000, chk)
+    mk = lambda c: 'checkm\t' + hx(c[0]) + ''.join(f'\t{s2}\t{hx(l)}' for s2, l in c[1])
+    stream_simple(chk, pr, 'check-merged', merged, mk, lambda c, x: x != 'nomatch')
+    def by_file_reversed(rules):
+        groups = []
+        for r in rules:
+            if groups and groups[-1][0][0] == r[0]: groups[-1].append(r)
+            else: groups.append([r])
+        return [r for g in reversed(groups) for r in g]
+    rev = [(pth, by_file_reversed(rules)) for pth, rules in merged]
+    a_fwd, _ = pr.impl_only([mk(c) for c in merged])
+    a_rev, _ = pr.impl_only([mk(c) for c in rev])
+    for c, x, y in zip(merged, a_fwd, a_rev):
+        if x != y:
+            chk.oracle_failure(f'IgnoreRules::check says {x} for {c[0]} when the ignore files are loaded in one order and {y} in the reverse order',
+                               {'path': c[0], 'rules': [(unhx(s2[1:]) if s2 != 'G' else 'G', l) for s2, l in c[1]], 'level': 'check'},
+                               {'forward': x, 'reverse': y}, signature={'stream': 'check-merged'})
+            break
 
     # ---- S3c/S4 trees: walkers vs model, oracle
-    n_trees = 60 if quick else 500
+    n_trees = 48 if quick else 480
     reps = 25 if quick else 100
     max_us = (300 if quick else 120) if hooked else 0
     st = chk.tie['streams'].setdefault('tree', {'cases': 0, 'disagreements': 0, 'oracle_failures': 0, 'parallel_repetitions': 0})
-    trees = [list(t) for t in CORPUS] + [gen_tree(rng, chk) for _ in range(n_trees)]
+    twins = [gen_twin_tree(rng, rel, cls, chk) for _ in range(1 if quick else 4) for rel in TWIN_RELATIONS for cls in TWIN_CLASSES]
+    trees = [list(t) for t in CORPUS] + twins + [gen_tree(rng, chk) for _ in range(n_trees)]
     # known-finding region K11 is kept out of the generated stream: a whitelist line that matches a .xvc/.git directory
     for i, hit in enumerate(special_hits(pr, trees)):
         if hit:
@@ -629,10 +740,13 @@ def run(chk: Check):
             chk.oracle_failure(msgs[0], {'tree': ents, 'show': show_tree(ents)}, {'all': msgs, 'emitted': obs.get('serial')}, signature=signature(pr, ents, msgs))
 
     # ---- binary level
-    n_bin = 10 if quick else 60
+    n_bin = 6 if quick else 50
     breps = 6 if quick else 20
     bst = chk.tie['streams'].setdefault('binary', {'cases': 0, 'disagreements': 0, 'oracle_failures': 0})
-    btrees = [list(CORPUS[0]), list(CORPUS[1])] + [gen_tree(rng, chk, special=False) for _ in range(n_bin)]
+    pick = [(TWIN_RELATIONS[(chk.seed + k) % 3], TWIN_CLASSES[(chk.seed + k) % len(TWIN_CLASSES)]) for k in range(6)] if quick else \
+           [(r, c) for r in TWIN_RELATIONS for c in TWIN_CLASSES]
+    btrees = [list(CORPUS[0]), list(CORPUS[1])] + [gen_twin_tree(rng, r, c, chk) for r, c in pick] + \
+             [gen_tree(rng, chk, special=False) for _ in range(n_bin)]
     for i, ents in enumerate(btrees):
         msgs, tie = binary_case(chk, pr, xvc, ents, i, breps, hooked)
         bst['cases'] += 1; chk.evaluations += 1
@@ -649,10 +763,10 @@ def run(chk: Check):
         f'constants (3); {len(globs)} (glob, path) pairs with globs of the four shapes of transform_pattern_for_glob x bodies from the gitignore grammar '
         f'(names, *.ext, dir/, /anchored, a/b, **/x, ?, [..], escapes; shape/body classes counted in generator_distribution) and paths instantiated from the glob then perturbed; '
         f'{len(pats)} Pattern::new (source dir, line) pairs, all fields; {len(contents)} ignore-file contents through content_to_patterns; '
-        f'{len(checks)} IgnoreRules::check calls on rule sets of 1-6 lines; {len(trees)} real trees (<= 4 levels, <= 20 entries, ignore files at random directories, '
+        f'{len(checks)} IgnoreRules::check calls on rule sets of 1-6 lines; {len(merged)} checks on rule sets merged file by file (add_patterns) with the same line in the ignore files of two directories, forwards and in reverse load order; {len(twins)} twin trees (the identical line — name, *.ext, dir/, !negation, a/b, /anchored — in the ignore files of sibling, cousin and parent+child directories) + {len(trees) - len(twins)} real trees (<= 4 levels, <= 20 entries, ignore files at random directories, '
         f'.xvc/.git directories, symlinks) each walked by walk_serial, by walk_parallel {reps}x' + (' with seeded hook delays' if hooked else '') +
         ', again after re-creating the entries in a shuffled order, again without the ignore file of up to 3 directories (scoping), '
-        f'plus build_ignore_patterns+check on up to 12 paths; {len(btrees)} scratch repositories driven by the rebuilt xvc binary (file list x{breps}, check-ignore, file track dir/). '
+        f'plus build_ignore_patterns+check on up to 12 paths; {len(btrees)} scratch repositories driven by the rebuilt xvc binary (file list x{breps}, glob targets, check-ignore, file track dir/; the first ones are twin trees). '
         'Non-trivial = a glob that matched / a pattern with a non-default field / a check with a verdict / a tree with a nested ignore file that hides something; distinct by input.')
     chk.extra['programs'] = len(trees) + len(btrees)
     return chk.finish()
@@ -663,6 +777,19 @@ def replay(chk: Check, data):
     pr = Procs(chk, impl, None)
     for f in data.get('failures', []):
         case = f['case']
+        if case.get('level') == 'check':
+            rules = [('G' if s2 == 'G' else 'F' + hx(s2), l) for s2, l in case['rules']]
+            mk = lambda rs: 'checkm\t' + hx(case['path']) + ''.join(f'\t{s2}\t{hx(l)}' for s2, l in rs)
+            groups = []
+            for r in rules:
+                if groups and groups[-1][0][0] == r[0]: groups[-1].append(r)
+                else: groups.append([r])
+            ans, _ = pr.impl_only([mk(rules), mk([r for g in reversed(groups) for r in g])])
+            chk.evaluations += 1
+            print('check', case['path'], 'rules', case['rules'], '->', ans[0], '(files loaded in order) /', ans[1], '(reverse order)')
+            if ans[0] != ans[1]:
+                chk.oracle_failure(f'IgnoreRules::check depends on the load order of the ignore files: {ans[0]} vs {ans[1]}', case, None, signature={'stream': 'check-merged'})
+            continue
         ents = [tuple(e) for e in case['tree']]
         if case.get('level') == 'binary':
             xvc = build_xvc(chk, hooked)
